@@ -1,6 +1,7 @@
 package props
 
 import (
+	"context"
 	"errors"
 	"fmt"
 	"runtime"
@@ -41,6 +42,16 @@ type C20Case struct {
 	// SharedErrs: the error of item i is the one-element sub-slice all[i:i+1] of one error list (the errors of one
 	// downstream batch answer, handed to the sub-requests they belong to)
 	SharedErrs bool `json:"shared_errs,omitempty"`
+	// CtxErrs: every third failing item fails with an error wrapping context.Canceled / context.DeadlineExceeded
+	// (a sub-request cut short), the others with ordinary errors: each of them is still one error of the result
+	CtxErrs bool `json:"ctx_errs,omitempty"`
+}
+
+func c20CtxErr(i int) error {
+	if i%2 == 0 {
+		return fmt.Errorf("item %d: %w", i, context.Canceled)
+	}
+	return fmt.Errorf("item %d: %w", i, context.DeadlineExceeded)
 }
 
 func c20ErrMsg(c *C20Case, i int) string {
@@ -135,6 +146,9 @@ func checkC20(c *C20Case) *ev.Failure {
 				if c.SharedErrs {
 					return 0, sharedErrs[i : i+1]
 				}
+				if c.CtxErrs && i%3 == 1 {
+					return 0, c20CtxErr(i)
+				}
 				if c.SameErr && i%2 == 0 {
 					return 0, gqlerrors.NewError("FORBIDDEN", errors.New(c20ErrMsg(c, i)))
 				}
@@ -213,6 +227,10 @@ func checkC20(c *C20Case) *ev.Failure {
 	wantErr := []string{}
 	for i := 0; i < n; i++ {
 		if c.Err[i] {
+			if c.CtxErrs && !c.SharedErrs && i%3 == 1 {
+				wantErr = append(wantErr, c20CtxErr(i).Error())
+				continue
+			}
 			wantErr = append(wantErr, c20ErrMsg(c, i))
 		} else {
 			wantOK = append(wantOK, i)
@@ -301,6 +319,7 @@ func genC20(t *rapid.T) *C20Case {
 	}
 	c := &C20Case{N: n, Err: make([]bool, n), ReduceYield: make([]int, n), MapYield: make([]int, n), HookYield: map[string]int{}}
 	c.SameErr = rapid.IntRange(0, 3).Draw(t, "sameerr") == 0
+	c.CtxErrs = rapid.IntRange(0, 3).Draw(t, "ctxerrs") == 0
 	c.SharedErrs = rapid.IntRange(0, 3).Draw(t, "sharederrs") == 0
 	for i := 0; i < n; i++ {
 		c.Err[i] = rapid.IntRange(0, 2).Draw(t, "err") == 0
